@@ -226,6 +226,8 @@ func NewResolver(URL string) (*Resolver, error) {
 type Resolver struct {
 	baseURL url.URL
 	cache   *lru.TwoQueueCache[cacheKey, *cacheValue]
+	// cacheMu makes "look at what is cached, then drop or replace it" one step.
+	cacheMu sync.Mutex
 
 	insecureUseGoResolver bool
 }
@@ -517,18 +519,22 @@ func (r *Resolver) resolveOne(ctx context.Context, name, typ string) ([]any, err
 		// Nothing is stored: the entry stays as it is, i.e. not fresh. It is
 		// dropped so that failing names take no room in the cache, unless
 		// another lookup has replaced it meanwhile.
+		r.cacheMu.Lock()
 		if cur, ok := cache.Peek(key); ok && cur == v {
 			cache.Remove(key)
 		}
+		r.cacheMu.Unlock()
 		return nil, err
 	}
 	v.expiration = timeNow().Add(time.Second * time.Duration(ttl))
 	v.result = res
 	// The entry may have been dropped after a failed lookup while this one
 	// was waiting for it: the lookups that follow must find the answer.
+	r.cacheMu.Lock()
 	if cur, ok := cache.Peek(key); !ok || cur != v {
 		cache.Add(key, v)
 	}
+	r.cacheMu.Unlock()
 	return res, nil
 }
 
